@@ -4,7 +4,7 @@
      abs_dev : D -> A     what the device holds
      abs_app : V -> A     what an applied-values map stands for
    and the obligations of the pure layer are NAMED predicates (Definitions below, never assumed globally):
-   every theorem that needs one lists it as a hypothesis.
+   every theorem that needs one lists it as a premise.
      - frame: the device of a target changes only by LDevRestart or by OK-answered requests of a reconcile
        invocation, and its state is the fold of dev_apply over exactly those requests, in order;
      - quiet invocations: an invocation (any controller, any prefix = any crash point) that contains no OK-answered
@@ -61,30 +61,37 @@ Section Converge.
   Definition agrees (w : world) (t : N) : Prop :=
     exists C, cfgs w !! t = Some C /\ abs_dev (dstate_of w t) = abs_app (aview C).
 
-  (** the obligations of the pure layer (named, not assumed) *)
-  Definition apply_sound : Prop :=
-    forall i m va vw ch req d, payload i vw ch = Some req -> abs_dev d = abs_app va ->
-      abs_dev (dev_apply d req) = abs_app (loaded (record_applied i m va vw ch)).
+  (** the obligations of the pure layer (named, not assumed).  Each comes in two forms: [X_at ...] at the values
+      one invocation works on (what the run-time monitors check on every observed step, and what the Examples
+      establish by computation on the executable instance), and [X] for all values. *)
+  (* a complete apply answered OK: [inl], [m] the inline values and the map of the applied values, [vw] the loaded
+     committed view, [d] the state of the device *)
+  Definition apply_sound_at (i : N) (inl m vw : V) (ch : Ch) (req : Req) (d : D) : Prop :=
+    payload i vw ch = Some req -> abs_dev d = abs_app (overlay inl m) ->
+    abs_dev (dev_apply d req) = abs_app (loaded (record_applied i m (overlay inl m) vw ch)).
+  Definition apply_sound : Prop := forall i inl m vw ch req d, apply_sound_at i inl m vw ch req d.
   (* a status update stores the loaded applied values again: what they stand for does not change, neither once the
      entry has been written (inline values cleared) ... *)
-  Definition restore_sound : Prop :=
-    forall inl m, abs_app (loaded (restore m (overlay inl m))) = abs_app (overlay inl m).
+  Definition restore_sound_at (inl m : V) : Prop := abs_app (loaded (restore m (overlay inl m))) = abs_app (overlay inl m).
   (* ... nor between the map write and the entry write (inline values still there) *)
-  Definition restore_cut_sound : Prop :=
-    forall inl m, abs_app (overlay inl (restore m (overlay inl m))) = abs_app (overlay inl m).
+  Definition restore_cut_sound_at (inl m : V) : Prop := abs_app (overlay inl (restore m (overlay inl m))) = abs_app (overlay inl m).
   (* the commit writes the loaded applied values inline into the entry (the applied map is untouched) *)
-  Definition inline_sound : Prop :=
-    forall inl m, abs_app (overlay (overlay inl m) m) = abs_app (overlay inl m).
-  Definition status_sound : Prop := restore_sound /\ restore_cut_sound /\ inline_sound.
-  Definition resync_sound_empty : Prop :=
-    forall va reqs, resync_payload va = map Some reqs -> abs_dev (fold_left dev_apply reqs d_empty) = abs_app va.
-  Definition resync_sound_same : Prop :=
-    forall va reqs d, resync_payload va = map Some reqs -> abs_dev d = abs_app va ->
-      abs_dev (fold_left dev_apply reqs d) = abs_app va.
+  Definition inline_sound_at (inl m : V) : Prop := abs_app (overlay (overlay inl m) m) = abs_app (overlay inl m).
+  Definition status_sound_at (p : V * V) : Prop :=
+    restore_sound_at p.1 p.2 /\ restore_cut_sound_at p.1 p.2 /\ inline_sound_at p.1 p.2.
+  Definition restore_sound : Prop := forall inl m, restore_sound_at inl m.
+  Definition restore_cut_sound : Prop := forall inl m, restore_cut_sound_at inl m.
+  Definition inline_sound : Prop := forall inl m, inline_sound_at inl m.
+  Definition status_sound : Prop := forall p, status_sound_at p.
+  Definition resync_sound_empty_at (va : V) (reqs : list Req) : Prop :=
+    resync_payload va = map Some reqs -> abs_dev (fold_left dev_apply reqs d_empty) = abs_app va.
+  Definition resync_sound_same_at (va : V) (reqs : list Req) (d : D) : Prop :=
+    resync_payload va = map Some reqs -> abs_dev d = abs_app va -> abs_dev (fold_left dev_apply reqs d) = abs_app va.
+  Definition resync_sound_empty : Prop := forall va reqs, resync_sound_empty_at va reqs.
+  Definition resync_sound_same : Prop := forall va reqs d, resync_sound_same_at va reqs d.
   (* sending the same request twice is as good as once (retry after a cut between the request and the status write) *)
-  Definition apply_idem : Prop := forall d req, abs_dev (dev_apply (dev_apply d req) req) = abs_dev (dev_apply d req).
-  (* a configuration to which nothing was applied stands for the empty device *)
-  Definition empty_sound : Prop := abs_app (overlay v_empty v_empty) = abs_dev d_empty.
+  Definition apply_idem_at (d : D) (req : Req) : Prop := abs_dev (dev_apply (dev_apply d req) req) = abs_dev (dev_apply d req).
+  Definition apply_idem : Prop := forall d req, apply_idem_at d req.
 
   (** * (a) Frame: the device changes only by OK-answered requests *)
   Definition ok_req (t : N) (e : eff) : option Req :=
@@ -250,7 +257,7 @@ Section Converge.
 
   (* a status update of the configuration the invocation has read *)
   Lemma quiet_upd_status t t' (C C' : config) :
-    status_sound -> quiet t (abs_app (aview C)) (pair_of C) (upd_status t' C C').
+    status_sound_at (pair_of C) -> quiet t (abs_app (aview C)) (pair_of C) (upd_status t' C C').
   Proof.
     intros (R1 & R2 & R3). unfold Proto2.upd_status. cbn [quiet eff_on]. destruct (t' =? t); cbn.
     - split; [apply R2|]. split; [apply R1|exact I].
@@ -291,7 +298,7 @@ Section Converge.
   Proof. unfold Proto2.rec_conn. destruct_matches; reflexivity. Qed.
 
   Lemma rec_master_quiet (o : oracle) (w : world) t' t (C : config) :
-    status_sound -> cfgs w !! t = Some C -> quiet t (abs_app (aview C)) (pair_of C) (fst (rec_master o w t')).
+    status_sound_at (pair_of C) -> cfgs w !! t = Some C -> quiet t (abs_app (aview C)) (pair_of C) (fst (rec_master o w t')).
   Proof.
     intros HS HC. unfold Proto2.rec_master.
     destruct (N.eqb_spec t' t) as [->|Hne].
@@ -309,7 +316,7 @@ Section Converge.
   Qed.
 
   Lemma rec_cfg_quiet (o : oracle) (w : world) t' t (C : config) :
-    status_sound -> cfgs w !! t = Some C -> quiet t (abs_app (aview C)) (pair_of C) (fst (rec_cfg o w t')).
+    status_sound_at (pair_of C) -> cfgs w !! t = Some C -> quiet t (abs_app (aview C)) (pair_of C) (fst (rec_cfg o w t')).
   Proof.
     intros HS HC. unfold Proto2.rec_cfg.
     destruct (N.eqb_spec t' t) as [->|Hne].
@@ -329,7 +336,7 @@ Section Converge.
   Qed.
 
   Lemma rec_prop_quiet (o : oracle) (w : world) t' i t (C : config) :
-    status_sound -> cfgs w !! t = Some C -> ok_reqs t (fst (rec_prop o w (t', i))) = [] ->
+    status_sound_at (pair_of C) -> cfgs w !! t = Some C -> ok_reqs t (fst (rec_prop o w (t', i))) = [] ->
     quiet t (abs_app (aview C)) (pair_of C) (fst (rec_prop o w (t', i))).
   Proof.
     intros (R1 & R2 & R3) HC. unfold Proto2.rec_prop, Proto2.vfail, Proto2.upd_status.
@@ -343,4 +350,620 @@ Section Converge.
       destruct_matches; cbn [fst app]; conc_link;
         repeat first [apply List.Forall_nil | apply List.Forall_cons; [first [exact I|exact Hne]|]].
   Qed.
+
+  (** * The configuration entry of one target along an effect list *)
+  Definition cfg_on (t : N) (C : config) (e : eff) : config :=
+    match e with
+    | EPutCfg t' c => if t' =? t then c <| c_values := c_values C |> <| c_avalues := c_avalues C |> else C
+    | EPutValues t' v => if t' =? t then C <| c_values := v |> else C
+    | EPutAValues t' v => if t' =? t then C <| c_avalues := v |> else C
+    | _ => C
+    end.
+
+  Lemma cfg_eff (w : world) (e : eff) t (C : config) :
+    cfgs w !! t = Some C -> cfgs (apply_eff w e) !! t = Some (cfg_on t C e).
+  Proof.
+    intros HC. rewrite cfgs_apply_eff.
+    destruct e as [| | |t0 c|t0 c|t0 v|t0 v| | |]; try exact HC; cbn [cfg_on].
+    - destruct (cfgs w !! t0) eqn:E0; [exact HC|].
+      destruct (decide (t0 = t)) as [->|Hne]; [congruence|]. rewrite lookup_insert_ne by exact Hne. exact HC.
+    - destruct (N.eqb_spec t0 t) as [->|Hne].
+      + rewrite HC, lookup_insert. reflexivity.
+      + destruct (cfgs w !! t0); [rewrite lookup_insert_ne by exact Hne|]; exact HC.
+    - destruct (N.eqb_spec t0 t) as [->|Hne].
+      + rewrite HC, lookup_insert. reflexivity.
+      + destruct (cfgs w !! t0); [rewrite lookup_insert_ne by exact Hne|]; exact HC.
+    - destruct (N.eqb_spec t0 t) as [->|Hne].
+      + rewrite HC, lookup_insert. reflexivity.
+      + destruct (cfgs w !! t0); [rewrite lookup_insert_ne by exact Hne|]; exact HC.
+  Qed.
+
+  Lemma cfg_fold (es : list eff) t : forall (w : world) (C : config),
+    cfgs w !! t = Some C -> cfgs (fold_left apply_eff es w) !! t = Some (fold_left (cfg_on t) es C).
+  Proof.
+    induction es as [|e r IH]; intros w C HC; [exact HC|]. cbn [fold_left]. apply IH. apply cfg_eff. exact HC.
+  Qed.
+
+  Lemma pair_cfg_on t (C : config) e : pair_of (cfg_on t C e) = eff_on t (pair_of C) e.
+  Proof. destruct e as [| | |t0 c|t0 c|t0 v|t0 v| | |]; cbn; try reflexivity; destruct (t0 =? t); reflexivity. Qed.
+  Lemma pair_cfg_fold t (es : list eff) : forall C : config,
+    pair_of (fold_left (cfg_on t) es C) = fold_left (eff_on t) es (pair_of C).
+  Proof. induction es as [|e r IH]; intros C; [reflexivity|]. cbn [fold_left]. rewrite IH, pair_cfg_on. reflexivity. Qed.
+
+  Notation core := (@core V).
+  (* the status part of the entry changes only by an entry write *)
+  Lemma core_fold t (es : list eff) : forall C : config,
+    core (fold_left (cfg_on t) es C) <> core C -> exists c, In (EPutCfg t c) es.
+  Proof.
+    induction es as [|e r IH]; intros C H; [exfalso; apply H; reflexivity|]. cbn [fold_left] in H.
+    destruct e as [| | |t0 c|t0 c|t0 v|t0 v| | |];
+      try (destruct (IH _ H) as (c' & Hc); exists c'; right; exact Hc); cbn [cfg_on] in H.
+    - destruct (N.eqb_spec t0 t) as [->|Hne]; [exists c; left; reflexivity|].
+      destruct (IH _ H) as (c' & Hc); exists c'; right; exact Hc.
+    - destruct (t0 =? t); destruct (IH _ H) as (c' & Hc); exists c'; right; exact Hc.
+    - destruct (t0 =? t); destruct (IH _ H) as (c' & Hc); exists c'; right; exact Hc.
+  Qed.
+
+  Lemma targets_fold (es : list eff) : forall w : world, targets (fold_left apply_eff es w) = targets w.
+  Proof. induction es as [|e r IH]; intros w; [reflexivity|]. cbn [fold_left]. rewrite IH. apply targets_apply_eff. Qed.
+
+  (** * Quiet invocations keep the device and what the applied values stand for, at every prefix *)
+  Lemma reconcile_quiet (o : oracle) (w : world) c t (C : config) :
+    status_sound_at (pair_of C) -> cfgs w !! t = Some C -> ok_reqs t (fst (reconcile o w c)) = [] ->
+    quiet t (abs_app (aview C)) (pair_of C) (fst (reconcile o w c)).
+  Proof.
+    intros HS HC Hq. destruct c as [i|[t' i]|t'|t'|cc]; cbn [Proto2.reconcile] in *.
+    - apply rec_tx_quiet.
+    - apply rec_prop_quiet; assumption.
+    - apply rec_cfg_quiet; assumption.
+    - apply rec_master_quiet; assumption.
+    - apply rec_conn_quiet.
+  Qed.
+
+  Theorem quiet_invocation (w : world) c k o t (C : config) :
+    status_sound_at (pair_of C) -> cfgs w !! t = Some C -> ok_reqs t (fst (reconcile o w c)) = [] ->
+    devs (step w (LRec c k o)) !! t = devs w !! t /\
+    exists C', cfgs (step w (LRec c k o)) !! t = Some C' /\ abs_app (aview C') = abs_app (aview C).
+  Proof.
+    intros HS HC Hq. cbn [Proto2.step]. split.
+    - apply devs_fold_none. apply ok_reqs_firstn_nil. exact Hq.
+    - eexists. split; [apply cfg_fold; exact HC|]. rewrite aview_pair, pair_cfg_fold.
+      apply quiet_prefix; [reflexivity|]. apply reconcile_quiet; assumption.
+  Qed.
+
+  Lemma dstate_devs (w w' : world) t : devs w' !! t = devs w !! t -> dstate_of w' t = dstate_of w t.
+  Proof. unfold dstate_of, Proto2.dev_of. intros ->. reflexivity. Qed.
+
+  Theorem quiet_keeps_agreement (w : world) c k o t :
+    (forall C, cfgs w !! t = Some C -> status_sound_at (pair_of C)) ->
+    ok_reqs t (fst (reconcile o w c)) = [] -> agrees w t -> agrees (step w (LRec c k o)) t.
+  Proof.
+    intros HS Hq (C & HC & Ha). destruct (quiet_invocation w c k o t C (HS C HC) HC Hq) as (Hd & C' & HC' & Hv).
+    exists C'. split; [exact HC'|]. rewrite (dstate_devs _ _ _ Hd), Hv. exact Ha.
+  Qed.
+
+  (** * Which invocations are not quiet *)
+  Lemma ok_reqs_in t (es : list eff) r :
+    In r (ok_reqs t es) -> exists m term og, In (EDev (DevSet t m term og r COk)) es.
+  Proof.
+    induction es as [|e rest IH]; cbn; [intros []|].
+    destruct (ok_req t e) as [q|] eqn:E.
+    - intros [<-|Hin].
+      + destruct e as [| | | | | | | | | [t' m term og r' a]]; try discriminate E. cbn in E.
+        destruct a; try discriminate E. destruct (N.eqb_spec t' t) as [->|]; [|discriminate E]. injection E as ->.
+        exists m, term, og. left. reflexivity.
+      + destruct (IH Hin) as (m & term & og & H). exists m, term, og. right. exact H.
+    - intros Hin. destruct (IH Hin) as (m & term & og & H). exists m, term, og. right. exact H.
+  Qed.
+
+  Notation sent_by_apply := (@sent_by_apply V Ch Req D overlay payload d_empty ch_empty).
+  Notation sent_by_resync := (@sent_by_resync V Ch Req D overlay resync_payload d_empty).
+
+  (* an invocation that is not quiet for [t] is the apply of a proposal of [t] or the re-push of [t], answered OK *)
+  Theorem not_quiet_cases (o : oracle) (w : world) c t :
+    ok_reqs t (fst (reconcile o w c)) <> [] ->
+    (exists i m term r, c = CtlProp (t, i) /\ sent_by_apply w o t i m term r COk) \/
+    (exists m term r, c = CtlCfg t /\ sent_by_resync w o t m term r COk).
+  Proof.
+    intros Hne. destruct (ok_reqs t (fst (reconcile o w c))) as [|r rest] eqn:E; [exfalso; apply Hne; reflexivity|].
+    assert (Hin : In r (ok_reqs t (fst (reconcile o w c)))) by (rewrite E; left; reflexivity).
+    apply ok_reqs_in in Hin. destruct Hin as (m & term & og & Hin).
+    apply (reconcile_dev candidate candidate_rb rollback_of overlay commit_merge payload record_applied touched restore
+             resync_payload doc_ok stamp v_empty d_empty ch_empty) in Hin.
+    destruct Hin as [(i & -> & _ & Hs)|(-> & _ & Hs)]; [left; exists i, m, term, r; auto|right; exists m, term, r; auto].
+  Qed.
+
+  (* a device that does not answer OK: every invocation is quiet *)
+  Theorem refused_is_quiet (o : oracle) (w : world) c t :
+    (forall C, cfgs w !! t = Some C -> dev_answer w t (c_term C) o <> COk) ->
+    ok_reqs t (fst (reconcile o w c)) = [].
+  Proof.
+    intros Hno. destruct (ok_reqs t (fst (reconcile o w c))) as [|r rest] eqn:E; [reflexivity|]. exfalso.
+    assert (Hne : ok_reqs t (fst (reconcile o w c)) <> []) by (rewrite E; discriminate).
+    destruct (not_quiet_cases o w c t Hne) as [(i & m & term & r0 & _ & Hs)|(m & term & r0 & _ & Hs)].
+    - destruct Hs as (C & P & HC & _ & _ & _ & _ & _ & Ha & _). apply (Hno C HC). symmetry. exact Ha.
+    - destruct Hs as (C & HC & _ & _ & _ & _ & _ & Ha & _). apply (Hno C HC). symmetry. exact Ha.
+  Qed.
+
+  (* a configuration that is not synchronised in its current term: no proposal sends anything *)
+  Definition unsynced (C : config) : Prop := c_aterm C < c_term C \/ c_state C = CSynchronizing.
+
+  Theorem unsynced_no_apply (o : oracle) (w : world) k t (C : config) :
+    cfgs w !! t = Some C -> unsynced C -> ok_reqs t (fst (rec_prop o w k)) = [].
+  Proof.
+    intros HC Hu. destruct (ok_reqs t (fst (rec_prop o w k))) as [|r rest] eqn:E; [reflexivity|]. exfalso.
+    assert (Hne : ok_reqs t (fst (reconcile o w (CtlProp k))) <> []) by (cbn [Proto2.reconcile]; rewrite E; discriminate).
+    destruct (not_quiet_cases o w (CtlProp k) t Hne) as [(i & m & term & r0 & _ & Hs)|(m & term & r0 & Hx & _)]; [|discriminate Hx].
+    destruct Hs as (C0 & P & HC0 & _ & _ & _ & _ & _ & _ & _ & _ & _ & Hst & Hle & _).
+    rewrite HC in HC0. injection HC0 as <-. destruct Hu as [Hlt|Hs]; [lia|contradiction].
+  Qed.
+
+  (** * (c) A complete proposal apply answered OK *)
+  Definition applied_cfg (i : N) (C : config) (P : prop) : config :=
+    C <| c_applied := i |> <| c_inline := touched i (view C) (rb_change P) |> <| c_ainline := v_empty |>.
+
+  Lemma apply_effects (o : oracle) (w : world) t i m term r :
+    sent_by_apply w o t i m term r COk ->
+    exists (C : config) (P : prop), cfgs w !! t = Some C /\ props w !! (t, i) = Some P /\ term = c_term C /\
+      c_applied C < i /\ ~ unsynced C /\ payload i (view C) (rb_change P) = Some r /\
+      fst (rec_prop o w (t, i)) =
+        [EDev (DevSet t m (c_term C) (Some i) r COk);
+         EPutAValues t (record_applied i (c_avalues C) (aview C) (view C) (rb_change P));
+         EPutCfg t (applied_cfg i C P);
+         EPutProp (t, i) (P <| p_apply := Some Done |> <| p_term := c_term C |>)].
+  Proof.
+    intros (C & P & HC & HP & -> & Hm & (tt & Hrel) & Hconn & Ha & Hap & Hlt & Hprev & Hst & Hle & Htg & Hpay).
+    exists C, P. split; [exact HC|]. split; [exact HP|]. split; [reflexivity|]. split; [exact Hlt|].
+    split; [intros [H|H]; [lia|contradiction]|]. split; [exact Hpay|].
+    unfold Proto2.rec_prop. rewrite HP, Hap, HC.
+    replace (i <=? c_applied C) with false by (symmetry; apply N.leb_gt; exact Hlt).
+    replace (negb (p_prev P =? 0) && negb (c_applied C =? p_prev P)) with false.
+    2:{ symmetry. destruct Hprev as [H0|H0]; [rewrite H0; reflexivity|].
+        rewrite H0, N.eqb_refl. cbn. apply andb_false_r. }
+    rewrite bool_decide_eq_false_2 by exact Hst.
+    destruct Htg as [pers Htg]. rewrite Htg. cbn [is_none].
+    replace (c_aterm C <? c_term C) with false by (symmetry; apply N.ltb_ge; exact Hle).
+    rewrite Hm, Hrel. destruct Hconn as [cc Hconn]. rewrite Hconn, Hpay. rewrite <- Ha. reflexivity.
+  Qed.
+
+  (* the world after a complete apply answered OK (entry written: k >= 3) *)
+  Lemma apply_world (o : oracle) (w : world) t i m term r (k : nat) :
+    sent_by_apply w o t i m term r COk -> (3 <= k)%nat ->
+    let w' := step w (LRec (CtlProp (t, i)) k o) in
+    dstate_of w' t = dev_apply (dstate_of w t) r /\
+    exists (C : config) (P : prop) (C' : config), cfgs w !! t = Some C /\ props w !! (t, i) = Some P /\
+      cfgs w' !! t = Some C' /\ c_applied C' = i /\ c_applied C < i /\ payload i (view C) (rb_change P) = Some r /\
+      aview C' = loaded (record_applied i (c_avalues C) (aview C) (view C) (rb_change P)) /\
+      c_state C' = c_state C /\ c_aterm C' = c_aterm C /\ c_term C' = c_term C.
+  Proof.
+    intros Hs Hk.
+    destruct (apply_effects o w t i m term r Hs) as (C & P & HC & HP & -> & Hlt & _ & Hpay & Hes).
+    cbn zeta. cbn [Proto2.step Proto2.reconcile]. rewrite Hes.
+    set (va' := record_applied i (c_avalues C) (aview C) (view C) (rb_change P)).
+    assert (Hcfg : exists C', cfgs (fold_left apply_eff (firstn k
+               [EDev (DevSet t m (c_term C) (Some i) r COk); EPutAValues t va'; EPutCfg t (applied_cfg i C P);
+                EPutProp (t, i) (P <| p_apply := Some Done |> <| p_term := c_term C |>)]) w) !! t = Some C' /\
+             C' = applied_cfg i C P <| c_values := c_values C |> <| c_avalues := va' |>).
+    { eexists. split; [apply cfg_fold; exact HC|].
+      destruct k as [|[|[|[|k]]]]; try lia; cbn [firstn fold_left cfg_on]; rewrite ?N.eqb_refl, ?firstn_nil; reflexivity. }
+    assert (Hdev : dstate_of (fold_left apply_eff (firstn k
+               [EDev (DevSet t m (c_term C) (Some i) r COk); EPutAValues t va'; EPutCfg t (applied_cfg i C P);
+                EPutProp (t, i) (P <| p_apply := Some Done |> <| p_term := c_term C |>)]) w) t = dev_apply (dstate_of w t) r).
+    { rewrite dstate_fold.
+      destruct k as [|[|[|[|k]]]]; try lia; cbn [firstn ok_reqs ok_req fold_left]; rewrite ?N.eqb_refl, ?firstn_nil; reflexivity. }
+    destruct Hcfg as (C' & HC' & ->). split; [exact Hdev|].
+    eexists C, P, _. split; [exact HC|]. split; [exact HP|]. split; [exact HC'|]. repeat split; assumption.
+  Qed.
+
+  Theorem apply_keeps_agreement (o : oracle) (w : world) t i m term r (k : nat) :
+    (forall (C : config) (P : prop), cfgs w !! t = Some C -> props w !! (t, i) = Some P ->
+       apply_sound_at i (c_ainline C) (c_avalues C) (view C) (rb_change P) r (dstate_of w t)) ->
+    sent_by_apply w o t i m term r COk -> (3 <= k)%nat -> agrees w t ->
+    let w' := step w (LRec (CtlProp (t, i)) k o) in
+    agrees w' t /\ dstate_of w' t = dev_apply (dstate_of w t) r /\
+    exists (C : config) (P : prop) (C' : config), cfgs w !! t = Some C /\ props w !! (t, i) = Some P /\
+      cfgs w' !! t = Some C' /\ c_applied C' = i /\ c_applied C < i /\
+      aview C' = loaded (record_applied i (c_avalues C) (aview C) (view C) (rb_change P)) /\
+      c_state C' = c_state C /\ c_aterm C' = c_aterm C /\ c_term C' = c_term C.
+  Proof.
+    intros HA Hs Hk (C0 & HC0 & Hag).
+    destruct (apply_world o w t i m term r k Hs Hk) as (Hdev & C & P & C' & HC & HP & HC' & Hi & Hlt & Hpay & Hv & Hr).
+    rewrite HC in HC0. injection HC0 as <-. cbn zeta. split; [|split; [exact Hdev|]].
+    - exists C'. split; [exact HC'|]. rewrite Hdev, Hv. apply (HA C P HC HP); assumption.
+    - exists C, P, C'. repeat split; try assumption; apply Hr.
+  Qed.
+
+  (* (1) an invocation cut right after the device request: the device is ahead of the record; the retry re-sends the
+     same request and, answered OK and run to the entry write, restores the agreement (needs apply_idem) *)
+  Theorem cut_apply_retry (o o' : oracle) (w : world) t i m term r (k' : nat) :
+    (forall (C : config) (P : prop), cfgs w !! t = Some C -> props w !! (t, i) = Some P ->
+       apply_sound_at i (c_ainline C) (c_avalues C) (view C) (rb_change P) r (dstate_of w t)) ->
+    apply_idem_at (dstate_of w t) r -> agrees w t -> sent_by_apply w o t i m term r COk ->
+    let w1 := step w (LRec (CtlProp (t, i)) 1 o) in
+    dstate_of w1 t = dev_apply (dstate_of w t) r /\ cfgs w1 = cfgs w /\
+    (dev_answer w1 t term o' = COk -> (3 <= k')%nat ->
+     sent_by_apply w1 o' t i m term r COk /\ agrees (step w1 (LRec (CtlProp (t, i)) k' o')) t).
+  Proof.
+    intros HA HI (C0 & HC0 & Hag) Hs.
+    destruct (apply_effects o w t i m term r Hs) as (C & P & HC & HP & -> & Hlt & _ & Hpay & Hes).
+    rewrite HC in HC0. injection HC0 as <-. cbn zeta.
+    assert (Hw1 : step w (LRec (CtlProp (t, i)) 1 o) = apply_eff w (EDev (DevSet t m (c_term C) (Some i) r COk)))
+      by (cbn [Proto2.step Proto2.reconcile]; rewrite Hes; reflexivity).
+    rewrite Hw1. clear Hw1.
+    set (w1 := apply_eff w (EDev (DevSet t m (c_term C) (Some i) r COk))).
+    assert (Hd1 : dstate_of w1 t = dev_apply (dstate_of w t) r).
+    { unfold w1. rewrite dstate_eff. cbn [ok_req]. rewrite N.eqb_refl. reflexivity. }
+    assert (Hc1 : cfgs w1 = cfgs w) by (unfold w1; rewrite cfgs_apply_eff; reflexivity).
+    split; [exact Hd1|]. split; [exact Hc1|]. intros Ha' Hk'.
+    assert (Hs1 : sent_by_apply w1 o' t i m (c_term C) r COk).
+    { destruct Hs as (C1 & P1 & G1 & G2 & G3 & G4 & G5 & G6 & G7 & G8).
+      exists C1, P1. unfold w1. rewrite cfgs_apply_eff, props_apply_eff, rels_apply_eff, conns_apply_eff, targets_apply_eff.
+      rewrite G1 in HC. injection HC as ->.
+      split; [exact G1|]. split; [exact G2|]. split; [exact G3|]. split; [exact G4|]. split; [exact G5|]. split; [exact G6|].
+      split; [symmetry; exact Ha'|]. exact G8. }
+    split; [exact Hs1|].
+    destruct (apply_world o' w1 t i m (c_term C) r k' Hs1 Hk') as (Hdev & C2 & P2 & C' & HC2 & HP2 & HC' & _ & _ & _ & Hv & _).
+    rewrite Hc1, HC in HC2. injection HC2 as <-.
+    assert (HP2' : props w1 !! (t, i) = Some P) by (unfold w1; rewrite props_apply_eff; exact HP).
+    rewrite HP2' in HP2. injection HP2 as <-.
+    exists C'. split; [exact HC'|]. rewrite Hdev, Hd1, Hv, HI. apply (HA C P HC HP); assumption.
+  Qed.
+
+  (** * (c) A complete re-push answered OK *)
+  Definition synced_cfg (C : config) : config :=
+    C <| c_state := CSynchronized |> <| c_amaster := c_master C |> <| c_aterm := c_term C |>.
+
+  Lemma resync_effs_ok t m term (rs : list Req) :
+    @resync_effs V Ch Req t m term COk (map Some rs) = (map (fun r => EDev (DevSet t m term None r COk)) rs, None).
+  Proof. induction rs as [|r rs IH]; [reflexivity|]. cbn. rewrite IH. reflexivity. Qed.
+
+  Lemma resync_effects (o : oracle) (w : world) t m term r (rs : list Req) :
+    sent_by_resync w o t m term r COk ->
+    exists C : config, cfgs w !! t = Some C /\ targets w !! t = Some false /\ term = c_term C /\ c_state C = CSynchronizing /\
+      c_applied C <> 0 /\
+      (resync_payload (aview C) = map Some rs ->
+       fst (rec_cfg o w t) = map (fun r => EDev (DevSet t m (c_term C) None r COk)) rs ++ upd_status t C (synced_cfg C)).
+  Proof.
+    intros (C & HC & HT & -> & Hm & (tt & Hrel) & (cc & Hconn) & Ha & Hst & Happ & Hin).
+    exists C. repeat (split; [assumption || reflexivity|]). intros Hrs.
+    unfold Proto2.rec_cfg. rewrite HC, HT, Hst. cbn [negb]. rewrite bool_decide_eq_true_2 by reflexivity. cbn [negb].
+    rewrite Hm. apply N.eqb_neq in Happ. rewrite Happ, Hrel, Hconn, <- Ha, Hrs, resync_effs_ok. unfold synced_cfg. rewrite Hm. reflexivity.
+  Qed.
+
+  Lemma ok_reqs_map_ok t m term og (rs : list Req) :
+    ok_reqs t (map (fun r => EDev (DevSet t m term og r COk)) rs) = rs.
+  Proof. induction rs as [|r rs IH]; [reflexivity|]. cbn [map ok_reqs ok_req]. rewrite N.eqb_refl, IH. reflexivity. Qed.
+
+  Lemma cfg_fold_devs t (C : config) t0 m term og a (rs : list Req) :
+    fold_left (cfg_on t) (map (fun r => EDev (DevSet t0 m term og r a)) rs) C = C.
+  Proof. induction rs as [|r rs IH]; [reflexivity|]. cbn. exact IH. Qed.
+
+  (* the complete invocation: every request of the re-push answered OK, then the status write *)
+  Theorem resync_establishes_agreement (o : oracle) (w : world) t m term r (rs : list Req) (k : nat) (C : config) :
+    restore_sound_at (c_ainline C) (c_avalues C) -> sent_by_resync w o t m term r COk -> cfgs w !! t = Some C ->
+    resync_payload (aview C) = map Some rs -> (length rs + 2 <= k)%nat ->
+    (resync_sound_empty_at (aview C) rs /\ dstate_of w t = d_empty) \/
+    (resync_sound_same_at (aview C) rs (dstate_of w t) /\ agrees w t) ->
+    let w' := step w (LRec (CtlCfg t) k o) in
+    agrees w' t /\ dstate_of w' t = fold_left dev_apply rs (dstate_of w t) /\
+    exists C', cfgs w' !! t = Some C' /\ c_state C' = CSynchronized /\ c_aterm C' = c_term C' /\ c_term C' = c_term C /\
+               c_applied C' = c_applied C /\ c_applied C <> 0 /\ abs_app (aview C') = abs_app (aview C).
+  Proof.
+    intros HR Hs HC Hrs Hk Hmode.
+    destruct (resync_effects o w t m term r rs Hs) as (C0 & HC0 & HT & -> & Hst & Happ & Hes).
+    rewrite HC in HC0. injection HC0 as <-. specialize (Hes Hrs).
+    cbn zeta. cbn [Proto2.step Proto2.reconcile]. rewrite Hes.
+    rewrite firstn_all2 by (rewrite app_length, map_length; unfold Proto2.upd_status; cbn; lia).
+    assert (Hdev : dstate_of (fold_left apply_eff
+                     (map (fun r => EDev (DevSet t m (c_term C) None r COk)) rs ++ upd_status t C (synced_cfg C)) w) t
+                   = fold_left dev_apply rs (dstate_of w t)).
+    { rewrite dstate_fold, ok_reqs_app, ok_reqs_map_ok. unfold Proto2.upd_status. cbn [ok_reqs ok_req]. rewrite app_nil_r. reflexivity. }
+    pose proof (cfg_fold (map (fun r => EDev (DevSet t m (c_term C) None r COk)) rs ++ upd_status t C (synced_cfg C)) t w C HC) as HC'.
+    rewrite (fold_left_app (cfg_on t)), cfg_fold_devs in HC'.
+    unfold Proto2.upd_status in HC'. cbn [fold_left cfg_on] in HC'. rewrite !N.eqb_refl in HC'.
+    assert (Hv : abs_app (aview (synced_cfg C <| c_inline := view C |> <| c_ainline := v_empty |>
+                                   <| c_values := c_values (C <| c_avalues := restore (c_avalues C) (aview C) |>) |>
+                                   <| c_avalues := c_avalues (C <| c_avalues := restore (c_avalues C) (aview C) |>) |>))
+                 = abs_app (aview C)) by exact HR.
+    split; [|split; [exact Hdev|]].
+    - eexists. split; [exact HC'|]. rewrite Hdev, Hv.
+      destruct Hmode as [(HE & Hd)|(HSm & (C1 & HC1 & Hag))].
+      + rewrite Hd. apply HE. exact Hrs.
+      + rewrite HC in HC1. injection HC1 as <-. apply HSm; assumption.
+    - eexists. split; [exact HC'|]. repeat split; try exact Happ. exact Hv.
+  Qed.
+
+  (** * Runs made of environment labels and COMPLETE reconcile invocations *)
+  Notation label := (@label Ch).
+  Definition complete (w : world) (l : label) : Prop :=
+    match l with LRec c k o => (length (fst (reconcile o w c)) <= k)%nat | _ => True end.
+  (* the re-push requests can always be built *)
+  Definition resync_total : Prop := forall va, exists rs, resync_payload va = map Some rs.
+  (* the obligations of the pure layer at the values the step [l] works on *)
+  Definition pure_ok (w : world) (t : N) (l : label) : Prop :=
+    forall C, cfgs w !! t = Some C ->
+      status_sound_at (pair_of C) /\
+      match l with
+      | LRec (CtlProp (t', i)) _ _ =>
+        t' = t -> forall (P : prop) r, props w !! (t, i) = Some P ->
+          apply_sound_at i (c_ainline C) (c_avalues C) (view C) (rb_change P) r (dstate_of w t)
+      | LRec (CtlCfg t') _ _ =>
+        t' = t -> exists rs, resync_payload (aview C) = map Some rs /\
+                             resync_sound_empty_at (aview C) rs /\ resync_sound_same_at (aview C) rs (dstate_of w t)
+      | _ => True
+      end.
+  (* no restart of the device of [t], [t] is not declared persistent, invocations run to their end, and the pure layer
+     meets its obligations at the values of the step *)
+  Definition allowed (t : N) (w : world) (l : label) : Prop :=
+    complete w l /\ l <> LDevRestart t /\ l <> LTarget t true /\ pure_ok w t l.
+  Inductive crun (t : N) : world -> world -> Prop :=
+  | crun_refl w : crun t w w
+  | crun_step w w1 l : crun t w w1 -> allowed t w1 l -> crun t w (step w1 l).
+  (* the device agrees with the applied values, or it is empty and the configuration is not synchronised in its
+     current term (so that nothing is sent before the re-push) *)
+  Definition conv (w : world) (t : N) : Prop :=
+    exists C, cfgs w !! t = Some C /\ targets w !! t <> Some true /\
+      (c_applied C = 0 -> abs_app (aview C) = abs_dev d_empty) /\
+      (agrees w t \/ (dstate_of w t = d_empty /\ unsynced C)).
+
+  Lemma conv_env (w w' : world) t :
+    cfgs w' = cfgs w -> devs w' !! t = devs w !! t -> targets w' !! t <> Some true -> conv w t -> conv w' t.
+  Proof.
+    intros Hc Hd Ht (C & HC & _ & H0 & Hmode). exists C. rewrite Hc. split; [exact HC|]. split; [exact Ht|]. split; [exact H0|].
+    destruct Hmode as [(C1 & HC1 & Hag)|(Hde & Hu)].
+    - left. exists C1. rewrite Hc. split; [exact HC1|]. rewrite (dstate_devs _ _ _ Hd). exact Hag.
+    - right. rewrite (dstate_devs _ _ _ Hd). auto.
+  Qed.
+
+  Ltac sim_cbn S := apply sim_fields in S; cbn in S; destruct S as (S1 & S2 & S3 & S4 & S5 & S6 & S7 & S8 & S9).
+
+  Lemma unsynced_dec (C : config) : unsynced C \/ ~ unsynced C.
+  Proof.
+    unfold unsynced. destruct (N.ltb_spec (c_aterm C) (c_term C)) as [H|H]; [left; left; exact H|].
+    destruct (decide (c_state C = CSynchronizing)) as [E|E]; [left; right; exact E|]. right. intros [H1|H1]; [lia|contradiction].
+  Qed.
+
+  Lemma conv_step (w : world) (l : label) t :
+    reach w -> conv w t -> allowed t w l -> conv (step w l) t.
+  Proof.
+    intros Hr Hcv (Hcomp & Hnr & Hnp & Hpure).
+    destruct l as [chs sy se|ri|c k o|c t0|c|c t0|t0 p|t0|t0]; cbn [Proto2.step].
+    - apply (conv_env w); try reflexivity. destruct Hcv as (C & _ & HT & _). exact HT. exact Hcv.
+    - apply (conv_env w); try reflexivity. destruct Hcv as (C & _ & HT & _). exact HT. exact Hcv.
+    - (* a complete reconcile invocation *)
+      cbn [complete] in Hcomp. rewrite firstn_all2 by exact Hcomp.
+      destruct Hcv as (C & HC & HT & H0 & Hmode).
+      destruct (Hpure C HC) as (HS & Hpl).
+      pose proof (cfg_fold (fst (reconcile o w c)) t w C HC) as HC'.
+      assert (Htg : targets (fold_left apply_eff (fst (reconcile o w c)) w) !! t <> Some true) by (rewrite targets_fold; exact HT).
+      assert (Hstep : step w (LRec c k o) = fold_left apply_eff (fst (reconcile o w c)) w)
+        by (cbn [Proto2.step]; rewrite firstn_all2 by exact Hcomp; reflexivity).
+      destruct (ok_reqs t (fst (reconcile o w c))) as [|r0 rest] eqn:Eq.
+      + (* quiet *)
+        destruct (quiet_invocation w c k o t C HS HC Eq) as (Hd & C' & HC2 & Hv). rewrite Hstep in Hd, HC2.
+        exists C'. split; [exact HC2|]. split; [exact Htg|]. split.
+        { intros Hz. rewrite Hv. apply H0.
+          pose proof (cursors_monotone candidate candidate_rb rollback_of overlay commit_merge payload record_applied touched restore
+                        resync_payload doc_ok dev_apply stamp v_empty d_empty ch_empty w (LRec c k o) t Hr) as [_ Hmono].
+          unfold applied_of in Hmono. rewrite Hstep, HC2, HC in Hmono. lia. }
+        destruct Hmode as [Hag|(Hde & Hu)].
+        { left. rewrite <- Hstep. apply quiet_keeps_agreement; [|assumption..].
+          intros C1 HC1. rewrite HC in HC1. injection HC1 as <-. exact HS. }
+        destruct (unsynced_dec C') as [Hu'|Hnu]; [right; split; [rewrite (dstate_devs _ _ _ Hd); exact Hde|exact Hu']|].
+        left. exists C'. split; [exact HC2|]. rewrite (dstate_devs _ _ _ Hd), Hde, Hv.
+        (* the only way out of [unsynced] is the status write of the configuration reconciler *)
+        pose proof HC2 as Hcs. rewrite <- Hstep in Hcs.
+        apply (cfg_step candidate candidate_rb rollback_of overlay commit_merge payload record_applied touched restore
+                 resync_payload doc_ok dev_apply stamp v_empty d_empty ch_empty) in Hcs.
+        destruct Hcs as [(C1 & HC1 & [S|(ctl & k1 & o1 & c0 & Hl & Hw & S)])|(Hn & _)]; [| |congruence].
+        { exfalso. rewrite HC in HC1. injection HC1 as <-. sim_cbn S. apply Hnu.
+          destruct Hu as [Hlt|Hst]; [left; lia|right; congruence]. }
+        rewrite HC in HC1. injection HC1 as <-. injection Hl as <- <- <-.
+        pose proof (aterm_le_term candidate candidate_rb rollback_of overlay commit_merge payload record_applied touched restore
+                      resync_payload doc_ok dev_apply stamp v_empty d_empty ch_empty w t C Hr HC) as Hle.
+        inversion Hw; subst; sim_cbn S;
+          try (exfalso; apply Hnu; destruct Hu as [Hlt|Hst]; [left; lia|right; congruence]);
+          try (exfalso; apply Hnu; right; congruence);
+          try contradiction.
+        (* CW_synced *)
+        destruct (N.eq_dec (c_applied C) 0) as [Hz|Hnz]; [symmetry; apply H0; exact Hz|].
+        assert (Hcore : core C' <> core C).
+        { unfold P2_Cursor.core. intros Hc. injection Hc as _ _ _ _ Hc _ _ _ _. congruence. }
+        rewrite HC' in HC2. injection HC2 as HC2eq. rewrite <- HC2eq in Hcore.
+        apply core_fold in Hcore. destruct Hcore as (c1 & Hin). cbn [Proto2.reconcile] in Hin, Eq.
+        match goal with H : c_state C = CSynchronizing |- _ => rename H into Hsy end.
+        match goal with H : targets w !! t = Some false |- _ => rename H into Htf end.
+        destruct (resync_completes overlay restore resync_payload v_empty d_empty o w t C c1 HC Htf Hsy Hnz Hin)
+          as (m1 & rs & _ & Hrs & Hes & _).
+        rewrite Hes, ok_reqs_app, ok_reqs_map_ok in Eq. apply app_eq_nil in Eq. destruct Eq as [-> _].
+        destruct (Hpl eq_refl) as (rs0 & Hrs0 & HE & _). rewrite Hrs in Hrs0.
+        assert (rs0 = []) as -> by (destruct rs0; [reflexivity|discriminate Hrs0]).
+        exact (HE Hrs).
+      + (* an apply or a re-push answered OK *)
+        assert (Hne : ok_reqs t (fst (reconcile o w c)) <> []) by (rewrite Eq; discriminate).
+        destruct (not_quiet_cases o w c t Hne) as [(i & m & term & r & -> & Hs)|(m & term & r & -> & Hs)].
+        * destruct (apply_effects o w t i m term r Hs) as (C1 & P & HC1 & HP & -> & Hlt & Hnu & Hpay & Hes).
+          rewrite HC in HC1. injection HC1 as <-.
+          assert (Hag : agrees w t) by (destruct Hmode as [Hag|(_ & Hu)]; [exact Hag|contradiction]).
+          assert (Hk : (3 <= k)%nat) by (cbn [Proto2.reconcile] in Hcomp; rewrite Hes in Hcomp; cbn in Hcomp; lia).
+          assert (HA : forall (C0 : config) (P0 : prop), cfgs w !! t = Some C0 -> props w !! (t, i) = Some P0 ->
+                         apply_sound_at i (c_ainline C0) (c_avalues C0) (view C0) (rb_change P0) r (dstate_of w t)).
+          { intros C0 P0 HC0 HP0. rewrite HC in HC0. injection HC0 as <-. apply (Hpl eq_refl). exact HP0. }
+          destruct (apply_keeps_agreement o w t i m (c_term C) r k HA Hs Hk Hag)
+            as (Hag' & _ & C2 & P2 & C' & HC2 & _ & HC'' & Hi & Hlt2 & _).
+          rewrite Hstep in Hag', HC''. rewrite HC in HC2. injection HC2 as <-.
+          exists C'. split; [exact HC''|]. split; [exact Htg|]. split; [intros Hz; lia|left; exact Hag'].
+        * destruct (Hpl eq_refl) as (rs & Hrs & HE & HSm).
+          destruct (resync_effects o w t m term r rs Hs) as (C1 & HC1 & _ & -> & _ & Hnz & Hes).
+          rewrite HC in HC1. injection HC1 as <-. specialize (Hes Hrs).
+          assert (Hk : (length rs + 2 <= k)%nat).
+          { cbn [Proto2.reconcile] in Hcomp. rewrite Hes, app_length, map_length in Hcomp. unfold Proto2.upd_status in Hcomp.
+            cbn in Hcomp. exact Hcomp. }
+          assert (Hm : (resync_sound_empty_at (aview C) rs /\ dstate_of w t = d_empty) \/
+                       (resync_sound_same_at (aview C) rs (dstate_of w t) /\ agrees w t))
+            by (destruct Hmode as [Hag|(Hde & _)]; [right; auto|left; auto]).
+          destruct (resync_establishes_agreement o w t m (c_term C) r rs k C (proj1 HS) Hs HC Hrs Hk Hm)
+            as (Hag' & _ & C' & HC'' & _ & _ & _ & Happ & Hnz' & _).
+          rewrite Hstep in Hag', HC''.
+          exists C'. split; [exact HC''|]. split; [exact Htg|]. split; [intros Hz; congruence|left; exact Hag'].
+    - destruct (conns w !! c); [exact Hcv|]. apply (conv_env w); try reflexivity. destruct Hcv as (C & _ & HT & _). exact HT. exact Hcv.
+    - apply (conv_env w); try reflexivity. destruct Hcv as (C & _ & HT & _). exact HT. exact Hcv.
+    - destruct (rels w !! c); [exact Hcv|]. apply (conv_env w); try reflexivity. destruct Hcv as (C & _ & HT & _). exact HT. exact Hcv.
+    - apply (conv_env w); try reflexivity; [|exact Hcv]. cbn.
+      destruct (decide (t0 = t)) as [->|Hne].
+      + rewrite lookup_insert. intros [= ->]. apply Hnp. reflexivity.
+      + rewrite lookup_insert_ne by exact Hne. destruct Hcv as (C & _ & HT & _). exact HT.
+    - apply (conv_env w); try reflexivity; [|exact Hcv]. cbn.
+      destruct (decide (t0 = t)) as [->|Hne].
+      + rewrite lookup_delete. discriminate.
+      + rewrite lookup_delete_ne by exact Hne. destruct Hcv as (C & _ & HT & _). exact HT.
+    - apply (conv_env w); try reflexivity; [| |exact Hcv].
+      + cbn. destruct (decide (t0 = t)) as [->|Hne]; [exfalso; apply Hnr; reflexivity|]. rewrite lookup_insert_ne by exact Hne. reflexivity.
+      + destruct Hcv as (C & _ & HT & _). exact HT.
+  Qed.
+
+  Theorem converged (w w' : world) t :
+    reach w -> conv w t -> crun t w w' -> reach w' /\ conv w' t.
+  Proof.
+    intros Hr Hcv Hrun. induction Hrun as [w|w w1 l Hrun IH Hal]; [auto|].
+    destruct (IH Hr Hcv) as (Hr1 & Hc1). split.
+    - apply (reach_step candidate candidate_rb rollback_of overlay commit_merge payload record_applied touched restore
+               resync_payload doc_ok dev_apply stamp v_empty d_empty ch_empty). exact Hr1.
+    - apply conv_step; assumption.
+  Qed.
+
+  (* ... hence: whenever the configuration is reported SYNCHRONIZED in its current term, the device agrees *)
+  Theorem converged_synchronized (w w' : world) t (C' : config) :
+    reach w -> conv w t -> crun t w w' ->
+    cfgs w' !! t = Some C' -> c_state C' = CSynchronized -> c_aterm C' = c_term C' -> agrees w' t.
+  Proof.
+    intros Hr Hcv Hrun HC' Hst Hat.
+    destruct (converged w w' t Hr Hcv Hrun) as (_ & C & HC & _ & _ & [Hag|(_ & Hu)]); [exact Hag|].
+    rewrite HC' in HC. injection HC as <-. destruct Hu as [Hlt|Hs]; [lia|congruence].
+  Qed.
+
+  (* a pure layer that meets its obligations for all values meets them at every step *)
+  Theorem pure_ok_global (w : world) t (l : label) :
+    status_sound -> apply_sound -> resync_sound_empty -> resync_sound_same -> resync_total -> pure_ok w t l.
+  Proof.
+    intros HS HA HE HSm HRT C HC. split; [apply HS|].
+    destruct l as [| |[|[t' i]|t'| |] k o| | | | | |]; try exact I.
+    - intros _ P r _. apply HA.
+    - intros _. destruct (HRT (aview C)) as (rs & Hrs). exists rs. split; [exact Hrs|]. split; [apply HE|apply HSm].
+  Qed.
+
+  (** * (3) The applied values only ever receive OK-answered changes *)
+  Ltac in_cases H :=
+    cbn [fst app In] in H;
+    repeat match type of H with
+           | _ \/ _ => destruct H as [H|H]; [try discriminate H|]
+           | False => destruct H
+           end.
+
+  (* what is written into the applied map of [t]: the loaded applied values again, or the record of an OK apply *)
+  Definition avalues_written (o : oracle) (w : world) (c : ctrl) (t : N) (C : config) (v : V) : Prop :=
+    v = restore (c_avalues C) (aview C) \/
+    exists i (P : prop), c = CtlProp (t, i) /\ props w !! (t, i) = Some P /\ dev_answer w t (c_term C) o = COk /\
+      v = record_applied i (c_avalues C) (aview C) (view C) (rb_change P).
+
+  Lemma rec_prop_putavalues (o : oracle) (w : world) t' i t v :
+    In (EPutAValues t v) (fst (rec_prop o w (t', i))) ->
+    exists C, cfgs w !! t = Some C /\ avalues_written o w (CtlProp (t', i)) t C v.
+  Proof.
+    unfold Proto2.rec_prop, Proto2.vfail, Proto2.upd_status, avalues_written.
+    destruct (props w !! (t', i)) as [P|] eqn:HP; [|intros []].
+    destruct_matches; intros H; conc_link; in_cases H; injection H as <- <-;
+      (eexists; split; [eassumption|]); first [left; reflexivity | right; eexists _, _; repeat split; eauto].
+  Qed.
+
+  Lemma reconcile_putavalues (o : oracle) (w : world) c t v :
+    In (EPutAValues t v) (fst (reconcile o w c)) -> exists C, cfgs w !! t = Some C /\ avalues_written o w c t C v.
+  Proof.
+    destruct c as [i|[t' i]|t'|t'|cc]; cbn [Proto2.reconcile].
+    - intros H. exfalso. pose proof (rec_tx_tp stamp w i) as Hf. rewrite List.Forall_forall in Hf. exact (Hf _ H).
+    - apply rec_prop_putavalues.
+    - unfold Proto2.rec_cfg, Proto2.upd_status, avalues_written.
+      destruct_matches; intros H; cbn [fst] in H; try (apply in_app_or in H; destruct H as [H|H]); in_cases H;
+        try (injection H as <- <-; eexists; (split; [eassumption|left; reflexivity])).
+      all: match goal with E : resync_effs ?t0 ?m0 ?te0 ?a0 ?rq0 = (?es, _), H : In _ ?es |- _ =>
+             let Hx := fresh in
+             pose proof (resync_effs_in (V:=V) (Ch:=Ch) t0 m0 te0 a0 rq0) as Hx; rewrite E in Hx;
+             destruct (Hx _ H) as (? & Hd & _); discriminate Hd end.
+    - unfold Proto2.rec_master, Proto2.upd_status, avalues_written.
+      destruct_matches; intros H; in_cases H; injection H as <- <-; eexists; (split; [eassumption|left; reflexivity]).
+    - unfold Proto2.rec_conn. destruct_matches; intros H; in_cases H.
+  Qed.
+
+  Lemma avalues_fold t (es : list eff) : forall C : config,
+    c_avalues (fold_left (cfg_on t) es C) = c_avalues C \/
+    exists v, In (EPutAValues t v) es /\ c_avalues (fold_left (cfg_on t) es C) = v.
+  Proof.
+    induction es as [|e r IH]; intros C; [left; reflexivity|]. cbn [fold_left].
+    destruct (IH (cfg_on t C e)) as [H|(v & Hin & H)]; [|right; exists v; split; [right; exact Hin|exact H]].
+    rewrite H. destruct e as [| | |t0 c|t0 c|t0 v|t0 v| | |]; try (left; reflexivity); cbn [cfg_on].
+    - destruct (t0 =? t); left; reflexivity.
+    - destruct (t0 =? t); left; reflexivity.
+    - destruct (N.eqb_spec t0 t) as [->|Hne]; [right; exists v; split; [left; reflexivity|reflexivity]|left; reflexivity].
+  Qed.
+
+  Lemma In_firstn {X} (x : X) (l : list X) : forall k, In x (firstn k l) -> In x l.
+  Proof. induction l as [|y l IH]; intros [|k]; cbn; try tauto. intros [->|H]; [left; reflexivity|right; eapply IH; exact H]. Qed.
+
+  Theorem avalues_change_only (w : world) (l : label) t (C C' : config) :
+    cfgs w !! t = Some C -> cfgs (step w l) !! t = Some C' -> c_avalues C' <> c_avalues C ->
+    exists c k o, l = LRec c k o /\ avalues_written o w c t C (c_avalues C').
+  Proof.
+    intros HC HC' Hne.
+    destruct l as [chs sy se|ri|c k o|c t0|c|c t0|t0 p|t0|t0]; cbn [Proto2.step] in HC';
+      try (cbn in HC'; rewrite HC in HC'; injection HC' as <-; exfalso; apply Hne; reflexivity).
+    - rewrite (cfg_fold _ t w C HC) in HC'. injection HC' as <-.
+      destruct (avalues_fold t (firstn k (fst (reconcile o w c))) C) as [H|(v & Hin & H)]; [contradiction|].
+      apply In_firstn in Hin. apply reconcile_putavalues in Hin. destruct Hin as (C1 & HC1 & Hw).
+      rewrite HC in HC1. injection HC1 as <-. exists c, k, o. split; [reflexivity|]. rewrite H. exact Hw.
+    - destruct (conns w !! c); cbn in HC'; rewrite HC in HC'; injection HC' as <-; exfalso; apply Hne; reflexivity.
+    - destruct (rels w !! c); cbn in HC'; rewrite HC in HC'; injection HC' as <-; exfalso; apply Hne; reflexivity.
+  Qed.
+
+  (** * Restart *)
+  (* the restart leaves every store as it was *)
+  Theorem restart_stores (w : world) t :
+    cfgs (step w (LDevRestart t)) = cfgs w /\ props (step w (LDevRestart t)) = props w /\ txs (step w (LDevRestart t)) = txs w /\
+    targets (step w (LDevRestart t)) = targets w /\ rels (step w (LDevRestart t)) = rels w /\ conns (step w (LDevRestart t)) = conns w.
+  Proof. repeat split. Qed.
+
+  (* while no request to [t] is answered OK the device stays as it is (in particular: empty) *)
+  Theorem quiet_keeps_device (w : world) c k o t :
+    ok_reqs t (fst (reconcile o w c)) = [] -> dstate_of (step w (LRec c k o)) t = dstate_of w t.
+  Proof.
+    intros Hq. apply dstate_devs. cbn [Proto2.step]. apply devs_fold_none. apply ok_reqs_firstn_nil. exact Hq.
+  Qed.
+
+  (* a device that restarts (empty) while its configuration is not synchronised in the current term - the connection
+     was replaced: new term by C10 - is in the domain of [converged]: the next complete re-push restores the agreement
+     and nothing else is sent before *)
+  Theorem restart_then_resync (w : world) t (C : config) :
+    cfgs w !! t = Some C -> targets w !! t <> Some true -> (c_applied C = 0 -> abs_app (aview C) = abs_dev d_empty) ->
+    unsynced C -> conv (step w (LDevRestart t)) t.
+  Proof.
+    intros HC HT H0 Hu. exists C. split; [exact HC|]. split; [exact HT|]. split; [exact H0|]. right. split; [apply restart_empties|exact Hu].
+  Qed.
+
+  (* a device that refuses or fails transiently (any answer but OK), any controller, any prefix *)
+  Theorem refused_keeps_agreement (w : world) c k o t :
+    (forall C, cfgs w !! t = Some C -> status_sound_at (pair_of C)) ->
+    (forall C, cfgs w !! t = Some C -> dev_answer w t (c_term C) o <> COk) ->
+    agrees w t ->
+    agrees (step w (LRec c k o)) t /\ devs (step w (LRec c k o)) !! t = devs w !! t.
+  Proof.
+    intros HS Hno Hag. pose proof (refused_is_quiet o w c t Hno) as Hq. split; [apply quiet_keeps_agreement; assumption|].
+    cbn [Proto2.step]. apply devs_fold_none. apply ok_reqs_firstn_nil. exact Hq.
+  Qed.
+
+  (* (4) "the stored configuration" of the property text is the COMMITTED one; that the applied values stand for the
+     same thing once everything committed is applied and no apply failed is a statement about commit_merge versus
+     record_applied: named here, proved nowhere (Properties/C03.v and C02.v are about the committed side) *)
+  Definition commit_apply_agree (w : world) (t : N) : Prop :=
+    forall C, cfgs w !! t = Some C -> c_applied C = c_committed C ->
+      (forall i (P : prop), props w !! (t, i) = Some P -> p_apply P <> Some Failed) ->
+      abs_app (aview C) = abs_app (view C).
 End Converge.
